@@ -20,6 +20,7 @@ type knownBad struct {
 	Stage    string   // load | generate | go-compile | py-import
 	Match    string   // regexp over the diagnostics
 	Src      string   // minimal term
+	Doc      string   // document for the run-time stages (go-strict, py-run); "" = a generated valid document
 	Text     string   // or: schema text (constructs the renderers refuse to print), %PKG% = package name
 	Builders bool
 	Mapping  string // OpenAPI mapping style, "" = default
@@ -80,6 +81,17 @@ var knownBadCorpus = []knownBad{
 	{ID: "KB19-cue-default-on-constrained-named-number", Switch: "+def.scalar.constrained", Stage: "load", Match: `strconv.Parse(Int|Float)`, Formats: []string{"cue"},
 		What: "a: #T | *72 with #T: int8 & <=83: the bound of the referenced definition is parsed together with the rest of the file",
 		Src:  `(defs "Root" ("Root" (struct (field "a" (ref "T") false false (n "72")))) ("T" (int 8 true - 83)))`},
+	{ID: "KB20-strict-null-struct-element", Switch: "+elem.nullable.struct", Stage: "go-strict", Match: `required field is missing from input`, Formats: []string{"jsonschema", "cue"},
+		What: "array / map whose elements are nullable structs: UnmarshalJSONStrict decodes the null entry as a struct and reports its required members missing (the standard decoder yields a nil pointer)",
+		Doc:  `{"f":[{"p":"x"},null]}`,
+		Src:  `(defs "Root" ("Root" (struct (field "f" (array (nullable (ref "S"))) true false -))) ("S" (struct (field "p" (string - - false) true false -))))`},
+	{ID: "KB21-python-null-struct-element", Switch: "+elem.nullable.struct", Stage: "py-run", Match: `TypeError`, Formats: []string{"jsonschema", "cue"},
+		What: "same shape in Python: from_json calls S.from_json(None) for the null entry",
+		Doc:  `{"f":[{"p":"x"},null]}`,
+		Src:  `(defs "Root" ("Root" (struct (field "f" (array (nullable (ref "S"))) true false -))) ("S" (struct (field "p" (string - - false) true false -))))`},
+	{ID: "KB22-nullable-member-with-nullable-elements", Switch: "+elem.nullable.underNullable", Stage: "go-compile", Match: `"strconv" imported and not used`, Formats: []string{"jsonschema", "cue"},
+		What: "nullable member of type map of map of nullable scalars: the inner `T | null` sits in a branch of the outer disjunction and is not reduced to a nullable scalar (cf. C06), the map counts as a map of non-scalars (then KB01)",
+		Src:  `(defs "Root" ("Root" (struct (field "data" (dict (dict (nullable (string - - false)))) false true -))))`},
 	{ID: "KB18-cue-nullable-int-enum", Switch: "degrade=0", Stage: "load", Match: `enums may only be generated`, Formats: []string{"cue"},
 		What: "null | 1 | 2 @cog(kind=\"enum\") is rejected",
 		Text: "package %PKG%\n\n#Root: {\n\ta?: null | 1 | 2 @cog(kind=\"enum\",memberNames=\"N1|N2\")\n}\n"},
@@ -141,11 +153,21 @@ func init() {
 				case !c.PyOK:
 					stage, diag = "py-import", c.PyImportErr
 				}
-				if stage == "ok" && (kb.Stage == "py-run" || kb.Stage == "any") && c.Defs != nil {
-					dg := newDocGen(c.Defs, newRng(1), defaultDocOpts())
-					rep := lab.PyCall([]LabReq{{c.ID, c.Defs.Root, "roundtrip", []string{dg.validDoc().json()}}})
-					if !strings.HasPrefix(rep[0], "ok") {
-						stage, diag = "py-run", rep[0]
+				if stage == "ok" && (kb.Stage == "py-run" || kb.Stage == "go-strict" || kb.Stage == "any") && c.Defs != nil {
+					doc := kb.Doc
+					if doc == "" {
+						doc = newDocGen(c.Defs, newRng(1), defaultDocOpts()).validDoc().json()
+					}
+					if kb.Stage == "go-strict" {
+						rep := lab.GoCall([]LabReq{{c.ID, c.Defs.Root, "strict", []string{doc}}})
+						if !strings.HasPrefix(rep[0], "ok") {
+							stage, diag = "go-strict", rep[0]
+						}
+					} else {
+						rep := lab.PyCall([]LabReq{{c.ID, c.Defs.Root, "roundtrip", []string{doc}}})
+						if !strings.HasPrefix(rep[0], "ok") {
+							stage, diag = "py-run", rep[0]
+						}
 					}
 				}
 				verdict := "not-reproduced"
